@@ -311,6 +311,15 @@ func c05Body(s *simkit.Sim, rc *simkit.RunCtx) {
 	// ---- sequential replays: at once, later within the window, after the window ----
 	// (the waits add up: +0, +2, +4, +6, +8, +11, +21 s, +14 min, +16 min, +36 min: inside the presentation's validity, inside the
 	// clock-skew allowance after it, around the expiry of the stored nonce / jti, and long after)
+	// some replays meet a session store whose reads fail (a shared store that cannot be reached): a value that cannot be
+	// looked up must not count as unused
+	if s.D.Decide("store-read-faults-during-replays", 3) == 2 {
+		f := p.w.F
+		f.Rates[seams.SessionGetErr] = 500
+		p.as.Session.F, p.cl.Session.F = f, f
+		f.Arm(true)
+		defer f.Arm(false)
+	}
 	waits := []time.Duration{0, 2 * time.Second, 2 * time.Second, 2 * time.Second, 2 * time.Second, 3 * time.Second, 10 * time.Second, 14 * time.Minute, 2 * time.Minute, 20 * time.Minute}
 	if futureDated || s.D.Decide("patient-replay", 3) == 1 {
 		// a refused replay stores the nonce / jti again, which renews its lifetime: a patient replayer waits instead, and
